@@ -9,9 +9,10 @@ decided by partition over their 16 / 2 values), FRAME (the setter changes exactl
 the LoRaWAN 1.0.x command table frozen below, all other bits of the buffer keep their old value), REFUSE (values
 that do not fit are refused with an error before any write, or truncated to the field). Framing: every creator's
 len() is 1 + the payload's length and both sides use the same CID; build_mac_commands writes cid + payload_len()
-bytes per command and the parser consumes 1 + len() of the same table. Not decided: text forms of identifiers
-(Display/FromStr) - no static rule relates the hex formatter of core::fmt to the parser; lossy fields
-(nano_seconds); variable-length certification/multicast creators."""
+bytes per command and the parser consumes 1 + len() of the same table; CIDs and payload lengths equal the
+specifications' command tables. Text forms (Display / FromStr of identifiers, addresses, keys): see props/c19_text.py -
+which bytes, in which order and at which width are handed to the trusted hex formatter / parser on both sides.
+Not decided: lossy fields (nano_seconds); variable-length certification/multicast creators."""
 import re
 from ..runner import Result, CheckError
 from .. import absint_interp, bits, rules
@@ -328,6 +329,8 @@ def run(tier):
     if n_cid < 44:
         raise CheckError('floor: payload types compared with the command table %d < 44' % n_cid)
     n_arms = stream_framing(c, res)
+    from . import c19_text
+    c19_text.check(c, res)
     res.coverage.update({'pairs': len(PAIRS), 'not_judged': NOT_JUDGED, 'configs': [c.info], 'parse_one_arms': n_arms})
     res.explanation = __doc__
     res.assumptions = ['the command table (byte, bit range per field) is frozen from LoRaWAN 1.0.x in lrs/props/c19.py',
